@@ -471,7 +471,8 @@ def check_history(H, mark, execute_all, ending):
                 continue            # an unpause/stop/launch overlapped this pause() call
             nxt = min([i for i, r_ in unp if i > p] + [mark + 1])
             n = len([x for x in sim if x[2] == 'cycle-begin' and p < x[0] < nxt])
-            if n > 1:
+            # a pause() made by the runner thread itself (from a hook outside the cycle) finds no cycle under way
+            if n > (0 if e[1] == 'runner' else 1):
                 return ('runs-while-paused', '%d cycles began after pause() returned (seq %d) and before the next unpause()/stop() call (seq %d)' % (n, p, nxt))
     # ---- a runner that is parked on its 'unpaused' event only starts a cycle again because of an unpause() (or start());
     # being woken by stop() must not run another cycle
